@@ -195,7 +195,7 @@ def main(rep, tier, seed):
     for gi, (n, edges) in enumerate(graphs):
         if n == 5 and tier == 'quick' and (gi + seed) % 5 != 0:
             continue
-        for li, lengths in enumerate(['equal', 'distinct', 'shortcut']):
+        for li, lengths in enumerate(['equal', 'distinct', 'shortcut', 'asym']):
             if tier == 'quick' and n == 5 and li != (gi + seed) % 3:
                 continue
             cases.append(dict(n=n, edges=[list(e) for e in edges], lengths=lengths, style=styles[(gi + li) % 3],
